@@ -15,7 +15,7 @@ IMPORTS = ['Unify.Unify', 'Engine.World', 'Engine.RunWorld']
 THEOREMS = ['C04_init_world_inv', 'C04_step_local', 'C04_step_noninterference', 'C04_interleave_alone',
             'C04_interleave_alone_init', 'C04_interleaved_eq_alone', 'C04_merges_indistinguishable', 'C04_every_merge', 'C04_back_to_back_is_merge', 'C04_merge_eq_back_to_back',
             'C04_same_engine_slots', 'C04_slots_alone', 'C04_slots_none', 'C04_slots_start', 'C04_reach_invariant', 'C04_reach_sinv',
-            'C04_disjoint_queries_alone', 'C04_same_engine_disjoint', 'C04_unify_frame']
+            'C04_disjoint_queries_alone', 'C04_world_disjoint_queries_alone', 'C04_same_engine_disjoint', 'C04_unify_frame']
 RULE = ('2-3 engines, histories of 6-24 operations each over {atom, assert_fact/assertz/asserta (3 API variants), retract/'
         'retractall (4 API variants), register_function (fixed/variadic), load_script_from_string of compiled Prolog '
         '(overwrite and chained; the same text in several engines, and different texts defining the same names), clear, '
